@@ -23,6 +23,7 @@ import (
 	_ "verifsim/shapes/doc"
 	_ "verifsim/shapes/flat"
 	_ "verifsim/shapes/flatb"
+	_ "verifsim/shapes/kv"
 	_ "verifsim/shapes/nested"
 	_ "verifsim/shapes/nestedb"
 	_ "verifsim/shapes/person"
@@ -45,7 +46,7 @@ func main() {
 	per := flag.Int("per", 3, "instances per goroutine and round")
 	flag.Parse()
 	r := core.NewRng(core.Mix(*seed, 0xace))
-	o := core.HistOpts{Shapes: []string{"doc", "flat", "flatb", "nested", "nestedb", "person", "rep3"}, PageMin: 1, PageMax: 4, MinBatches: 1, MaxBatches: 3, MaxOps: 10, Profile: core.Benign}
+	o := core.HistOpts{Shapes: []string{"doc", "flat", "flatb", "kv", "nested", "nestedb", "person", "rep3"}, PageMin: 1, PageMax: 4, MinBatches: 1, MaxBatches: 3, MaxOps: 10, Profile: core.Benign}
 	bad := 0
 	total := 0
 	for round := 0; round < *rounds; round++ {
